@@ -103,11 +103,11 @@ Theorem c08_dnl_wf : forall t0 c sv ad life ops,
 Proof. exact dnl_wf. Qed.
 Print Assumptions c08_dnl_wf.
 
-(* ... and after that lifetime k sweeps (100 records each, as in the code) remove min(100 k, n) records *)
+(* ... and after that lifetime k sweeps (dnl_batch = 100 records each, translated from the code) remove min(100 k, n) records *)
 Theorem c08_dnl_drains : forall t0 c sv ad life ops d k, life < Z.of_N d ->
   let s0 := run (start t0 c sv ad life) ops in
   let s := run (start t0 c sv ad life) (ops ++ [OAdv d] ++ repeat ODnl k) in
-  length (dnlq s) = (length (dnlq s0) - 100 * k)%nat /\ length (dnl s) = length (dnlq s).
+  length (dnlq s) = (length (dnlq s0) - dnl_batch * k)%nat /\ length (dnl s) = length (dnlq s).
 Proof. exact dnl_drain. Qed.
 Print Assumptions c08_dnl_drains.
 
@@ -121,7 +121,7 @@ Print Assumptions c08_oracle_always.
    dead-nonce lifetime and enough sweeps: everything is empty and both dump oracles accept *)
 Theorem c08_quiescence : forall t0 c sv ad life ops L d1 d2 k, 0 <= L -> lifetimes_within L ops -> L <= Z.of_N d1 -> life < Z.of_N d2 ->
   let s1 := run (start t0 c sv ad life) (ops ++ [OAdv d1; OTick]) in
-  (length (dnlq s1) <= 100 * k)%nat ->
+  (length (dnlq s1) <= dnl_batch * k)%nat ->
   let s := run (start t0 c sv ad life) ((ops ++ [OAdv d1; OTick]) ++ [OAdv d2] ++ repeat ODnl k) in
   E s = [] /\ npit s = 0 /\ tokmap s = [] /\ heap s = [] /\ dnl s = [] /\ dnlq s = [] /\
   c08_always (dump_of s) = [] /\ c08_quiescent (dump_of s) = [].
